@@ -31,6 +31,9 @@ META = dict(
          "writing to what they were given (labels, args, kwargs, the validated argument), many carrying equal raw "
          "values, some written on the wire by hand with task ids / task names / label keys / string arguments of unusual "
          "shapes (differing only by surrounding or inner whitespace, case, Unicode form, a long common prefix; empty); "
+         "some asking for their Context / message / broker in another way than the cached Context (Context with "
+         "use_cache=False, TaskiqMessage / AsyncBroker from the resolver, nested providers of every style taking the "
+         "Context cached or un-cached) behind an awaiting dependency; "
          "non-trivial iff >= 2 "
          "messages and some resolver sub-context (use_cache=False or nested dependency) of an execution starts its "
          "traversal after another execution wrote its Context into the broker's dict; distinct by case content",
@@ -121,7 +124,7 @@ def run(ctx):
     if corpus:
         explore(ctx, rep, corpus, "corpus")
     r = ctx.sub_rng("gen")
-    cases = [L.gen_case(r) for _ in range(ctx.n(1200, 40000))]
+    cases = [L.gen_case_c06(r) for _ in range(ctx.n(1200, 40000))]
     broken = explore(ctx, rep, cases, "main")
     if not ctx.quick:
         grid = L.grid_cases()
@@ -129,7 +132,7 @@ def run(ctx):
         broken = explore(ctx, rep, grid, "grid") or broken
     if (broken or any(not o["ok"] for o in rep.obligations)) and not rep.failures:
         r2 = ctx.sub_rng("search")
-        explore(ctx, rep, [L.gen_case(r2) for _ in range(ctx.n(3000, 30000))], "search")
+        explore(ctx, rep, [L.gen_case_c06(r2) for _ in range(ctx.n(3000, 30000))], "search")
     L.shrink_failures(ctx, rep, fails_of)
     return rep.finish()
 
